@@ -342,12 +342,16 @@ func VP_C06_legacy_read() {
 // vpScriptConn delivers a raw byte stream in scripted segments, then EOF.
 type vpScriptConn struct {
 	vpConn
-	segs [][]byte
-	pos  int
+	segs  [][]byte
+	pos   int
+	waits bool // after its last segment the client keeps the connection open and waits for the gateway's answer
 }
 
 func (c *vpScriptConn) Read(b []byte) (int, error) {
 	if c.pos >= len(c.segs) {
+		if c.waits {
+			vpBlockForever() // nothing more will come before the gateway has answered what was sent
+		}
 		return 0, io.EOF
 	}
 	n := copy(b, c.segs[c.pos])
@@ -379,7 +383,7 @@ func (w *vpHijackW) Hijack() (net.Conn, *bufio.ReadWriter, error) {
 
 //vp:property C08 C06
 //vp:set cuts 1 2
-//vp:bounds legacy IN body through the real NewLegacy + ReadPacket + net/http's chunked reader: two HTTP chunks of 1..3 bytes each (first byte of each symbolic) and optionally the terminating chunk; the raw chunked stream reaches the socket in cuts+1 segments at every cut position, independent of chunk boundaries; the first segment already buffered by the HTTP server or not
+//vp:bounds legacy IN body through the real NewLegacy + ReadPacket + net/http's chunked reader: two HTTP chunks of 1..3 bytes each (first byte of each symbolic) and optionally the terminating chunk (without it the client either closes or keeps the connection open and waits for the gateway's answer); the raw chunked stream reaches the socket in cuts+1 segments at every cut position, independent of chunk boundaries; the first segment already buffered by the HTTP server or not
 //vp:assume net/http hands the hijacker a bufio.Reader that may already hold body bytes (documented for Hijack)
 //vp:reach complete
 func VP_C08_legacy_chunks() {
@@ -393,7 +397,8 @@ func VP_C08_legacy_chunks() {
 		raw = append(raw, '\r', '\n')
 		want = append(want, pl...)
 	}
-	if vpBool("terminated") {
+	terminated := vpBool("terminated")
+	if terminated {
 		raw = append(raw, '0', '\r', '\n', '\r', '\n')
 	}
 	conn := &vpScriptConn{}
@@ -410,8 +415,13 @@ func VP_C08_legacy_chunks() {
 	if err != nil || l == nil {
 		return
 	}
+	// the client may keep the connection open after what it sent and wait for the answer: everything that
+	// has arrived must be handed over without waiting for more
+	if !terminated && vpBool("client-waits-for-the-answer") {
+		conn.waits = true
+	}
 	var got []byte
-	for i := 0; i < 12; i++ {
+	for i := 0; i < 12 && !(conn.waits && len(got) >= len(want)); i++ {
 		n, p, err := l.ReadPacket()
 		vpAssert(n == len(p), "legacy-read-count-equals-the-bytes-returned")
 		got = append(got, p...)
